@@ -6,6 +6,8 @@ A case is a forest of scripted events.  Every event has a unique label (>= 1), f
 handler scripts, invoked in list order (distinct descending priorities):
 
   {'t': 'p', 'k': [events fired], 'r': R}                     plain handler; R: None | 'x' (raise) | int | [ints]
+                                                              | {'nest': event}: `return self.fire(event)`, i.e. the
+                                                              handler fires a nested event and returns its Value
   {'t': 'g', 'y': [[[events fired], Y], ...], 'k': [events fired in the last segment], 'x': raises at the end?,
    'ret': value of the generator's `return` (ignored by circuits)}     generator handler; Y: None | int | [ints]
 
@@ -16,7 +18,8 @@ Observable: the global log
   [2,kind,L,c] derived event seen by the catch-all observer of component c (0 App, 1 Other)
   [4,L,c] user event L seen by the observer of c        [5,L] user event L fired
 plus, per fired user event, the final Value (value, errors, result, promise) and waitingHandlers, plus whether
-queue and task set drained.
+queue and task set drained.  Values are canonical: [0] None, [1,z] int, [2] error triple, [3,[items]] list,
+[4,v] a nested Value object holding v (read with getValue(recursive=False)).
 """
 import sys, os, threading
 sys.path.insert(0, os.path.dirname(os.path.abspath(__file__)))
@@ -25,6 +28,7 @@ from common import Prop
 
 from circuits import Component, Event, handler
 from circuits.core.manager import Manager
+from circuits.core.values import Value
 
 MAXTICKS = 200
 KINDS = {'success': 0, 'failure': 1, 'value_changed': 3}
@@ -72,13 +76,21 @@ def walk_events(evs):
         for h in e['h']:
             if h['t'] == 'p':
                 yield from walk_events(h['k'])
+                if is_nest(h['r']):
+                    yield from walk_events([h['r']['nest']])
             else:
                 for st in h['y']:
                     yield from walk_events(st[0])
                 yield from walk_events(h['k'])
 
 
+def is_nest(r):
+    return isinstance(r, dict)
+
+
 def canon_val(x):
+    if isinstance(x, Value):
+        return [4, canon_val(x.getValue(False))]
     if x is None:
         return [0]
     if isinstance(x, bool):
@@ -186,6 +198,9 @@ def run_script(case):
                 fire_child(ch)
             if hd['r'] == 'x':
                 raise Scripted('scripted failure')
+            if is_nest(hd['r']):
+                fire_child(hd['r']['nest'])
+                return vals[hd['r']['nest']['l']]
             return fresh(hd['r'])
         fn.__name__ = 'h_%d_%d' % (L, i)
         return fn
@@ -241,7 +256,7 @@ def run_script(case):
     final = []
     for l in order:
         v = vals[l]
-        final.append([l, canon_val(v.value), bool(v.errors), bool(v.result), bool(v.promise),
+        final.append([l, canon_val(v.getValue(False)), bool(v.errors), bool(v.result), bool(v.promise),
                       int(objs[l].waitingHandlers)])
     return {'log': log, 'final': final, 'quiet': quiet, 'sched': sched, 'ticks': t}
 
@@ -272,6 +287,8 @@ def coq_evs(l):
 
 def coq_hd(h):
     if h['t'] == 'p':
+        if is_nest(h['r']):
+            return 'HP %s (RNest (%s))' % (coq_evs(h['k']), coq_ev(h['r']['nest']))
         return 'HP %s %s' % (coq_evs(h['k']), 'RRaise' if h['r'] == 'x' else '(RRet %s)' % coq_py(h['r']))
     return 'HG [%s] %s %s' % ('; '.join('(%s, %s)' % (coq_evs(k), coq_py(y)) for k, y in h['y']),
                               coq_evs(h['k']), b(h['x']))
@@ -319,15 +336,21 @@ class Gen:
                     h['ret'] = rng.choice(VALUES)
                 e['h'].append(h)
             else:
-                r = 'x' if rng.random() < p['r'] else self.val(0.3)
-                e['h'].append({'t': 'p', 'k': self.kids(d, 2), 'r': r})
+                kids = self.kids(d, 2)
+                if rng.random() < p['nest'] and self.left > 0 and d < self.depth + 1:
+                    r = {'nest': self.ev(d + 1)}
+                else:
+                    r = 'x' if rng.random() < p['r'] else self.val(0.3)
+                e['h'].append({'t': 'p', 'k': kids, 'r': r})
         return e
 
 
 def gen_case(rng, tier):
     p = {'s': rng.choice([0.5, 0.8, 1.0]), 'f': rng.choice([0.3, 0.6, 1.0]), 'n': rng.choice([0, 0.3, 0.7]),
          'g': rng.choice([0, 0.25, 0.5, 0.7]), 'r': rng.choice([0, 0.2, 0.4]), 'gr': rng.choice([0, 0.25, 0.5]),
-         'lst': rng.choice([0, 0, 0.1, 0.3])}
+         'lst': rng.choice([0, 0, 0.1, 0.3]), 'nest': rng.choice([0, 0, 0.15, 0.35])}
+    if rng.random() < 0.15:     # plain handlers only, many raises and nested-Value returns (err / errors-flag interplay)
+        p.update(g=0, r=0.4, nest=0.4, s=1.0)
     g = Gen(rng, rng.choice([2, 4, 8, 12]), rng.choice([1, 2, 3]), p)
     roots = []
     for _ in range(rng.choice([1, 1, 2, 3])):
@@ -336,8 +359,11 @@ def gen_case(rng, tier):
     return {'roots': roots, 'rot': [rng.randrange(4) for _ in range(rng.randint(1, 4))]}
 
 
-def event_results(e, log):
-    """results of event e in production order, read off the handler log with the script: (list, raises)"""
+def event_results(e, log, fin=None):
+    """results of event e in production order, read off the handler log with the script: (list, raises).
+    A handler that returns the Value of a nested event contributes one result: that Value object, [4, v],
+    where v is what the nested event's Value was observed to hold at the end (the nested event's own
+    contents are judged at the nested event)"""
     L, results, raises = e['l'], [], 0
     for x in log:
         if x[0] == 0 and x[1] == L and x[2] < len(e['h']):
@@ -345,6 +371,9 @@ def event_results(e, log):
             if r == 'x':
                 results.append([2])
                 raises += 1
+            elif is_nest(r):
+                nl = r['nest']['l']
+                results.append([4, fin[nl][1] if fin and nl in fin else None])
             elif r is not None:
                 results.append(canon_spec(r))
         elif x[0] == 1 and x[1] == L and x[2] < len(e['h']):
@@ -358,6 +387,30 @@ def event_results(e, log):
     return results, raises
 
 
+def nested_labels(e):
+    return [h['r']['nest']['l'] for h in e['h'] if h['t'] == 'p' and is_nest(h['r'])]
+
+
+def own_raises(e):
+    return any((h['t'] == 'p' and h['r'] == 'x') or (h['t'] == 'g' and h['x']) for h in e['h'])
+
+
+def nested_raise(e, specs):
+    """some event whose Value e holds (transitively) has a raising handler: circuits propagates that failure
+    into e's errors flag; the statement speaks of e's own handlers only, so the oracle leaves the flag (and,
+    when the nested failure arrives before e finishes, e's success) open in that case"""
+    todo, seen = nested_labels(e), set()
+    while todo:
+        l = todo.pop()
+        if l in seen:
+            continue
+        seen.add(l)
+        if own_raises(specs[l]):
+            return True
+        todo.extend(nested_labels(specs[l]))
+    return False
+
+
 class C04(Prop):
     id = 'C04'
     props_file = 'Props/C04.v'
@@ -368,16 +421,19 @@ class C04(Prop):
             'handlers returning None / int (incl. 0) / list / raising, generator handlers with 0-3 yields (None / int / '
             'list) ending in return or raise, every handler and every generator segment firing 0-2 child events; '
             'success / failure / notify flags, events on one or two channels, 4 success_channels settings; task-set '
-            'iteration order rotated per tick. non-trivial = an event with >= 2 handlers among which a raise or a '
-            'generator')
+            'iteration order rotated per tick; plain handlers that fire a nested event and return its Value '
+            '(`return self.fire(e)`). non-trivial = an event with >= 2 handlers among which a raise, a generator or a '
+            'nested-Value return')
     trusted_base = ['hand-written model Model/Feedback.v (Value.setValue/inform, dispatcher try/except, generator '
                     'registration, _eventDone gate, processTask branches for plain generators) tied to the repository by '
                     'this correspondence run on the global log and the final Value of every event',
                     'python oracle in harness/c04.py reading the property off the log, the script and the final Values',
                     'task-set double with controlled iteration order; fire wrapper logging derived events']
     assumptions = ['all events fired with priority 0; distinct handler priorities; one firing thread',
-                   'handlers do not call flush()/tick()/stop(), call(), wait(), event.stop(), and do not return Value '
-                   'objects or generators other than their own body',
+                   'handlers do not call flush()/tick()/stop(), call(), wait(), event.stop(); the only Value a handler '
+                   'returns is that of an event it has just fired; generators do not yield Values',
+                   'a failure of a nested event whose Value an event holds is propagated into its errors flag by design; '
+                   'the oracle leaves the flag (and a success suppressed by it while generators are pending) undecided',
                    'that no handler is invoked twice for one event is property C01/C02; here it is checked by the '
                    'oracle and the correspondence, not by a theorem']
 
@@ -389,7 +445,7 @@ class C04(Prop):
         cases = [gen_case(rng, tier) for _ in range(n)]
         st = {'events': 0, 'success': 0, 'failure': 0, 'notify': 0, 'two_channels': 0, 'success_channels': 0,
               'plain_none': 0, 'plain_value': 0, 'plain_list': 0, 'plain_raise': 0, 'gen': 0, 'gen_raise': 0,
-              'gen_yields': 0, 'nested_events': 0, 'raise_and_gen_events': 0, 'multi_result_events': 0}
+              'gen_yields': 0, 'nested_events': 0, 'returns_nested_value': 0, 'raise_then_nested_value': 0, 'raise_and_gen_events': 0, 'multi_result_events': 0}
         for c in cases:
             roots = {e['l'] for e in c['roots']}
             for e in walk_events(c['roots']):
@@ -407,12 +463,22 @@ class C04(Prop):
                         st['gen_raise'] += h['x']
                         st['gen_yields'] += len(h['y'])
                         nr += sum(1 for y in h['y'] if y[1] is not None) + h['x']
+                    elif is_nest(h['r']):
+                        st['returns_nested_value'] += 1
+                        nr += 1
                     else:
                         k = ('plain_raise' if h['r'] == 'x' else 'plain_none' if h['r'] is None else
                              'plain_list' if isinstance(h['r'], list) else 'plain_value')
                         st[k] += 1
                         nr += h['r'] is not None
                 st['multi_result_events'] += nr >= 2
+                seen_raise = False
+                for h in e['h']:
+                    if h['t'] == 'p' and h['r'] == 'x':
+                        seen_raise = True
+                    elif h['t'] == 'p' and is_nest(h['r']) and seen_raise:
+                        st['raise_then_nested_value'] += 1
+                        break
                 st['raise_and_gen_events'] += (any(h['t'] == 'g' for h in e['h']) and
                                                any(h['t'] == 'p' and h['r'] == 'x' or h['t'] == 'g' and h['x']
                                                    for h in e['h']))
@@ -472,59 +538,83 @@ class C04(Prop):
                             return 'isolation: segment %d of generator handler %d of event %d ran %d times (event %d)' % (
                                 k, i, L, len(ps), L)
                         last = ps[0]
-        value_problems = []      # reported last, so that the recorded list-merge finding never masks another problem
+        # problems of all events are collected; one that is not an instance of a recorded finding is reported first,
+        # so that a recorded finding never masks a different problem of the same case
+        probs = []
         for L, e in sorted(specs.items()):
-            results, raises = event_results(e, log)
+            results, raises = event_results(e, log, fin)
+            has_nest = bool(nested_labels(e))
+            open_flag = raises == 0 and nested_raise(e, specs)
             f = fin[L]
             if f[5] != 0:
                 return 'hang: event %d still has waitingHandlers = %d (event %d)' % (L, f[5], L)
             exp = [0] if not results else results[0] if len(results) == 1 else [3, results]
             if f[1] != exp:
-                merged = (len(results) >= 2 and results[0][0] == 3 and f[1] == [3, results[0][1] + results[1:]])
-                value_problems.append((merged, 'value: event %d holds %r, expected %r (event %d)' % (L, f[1], exp, L)))
-            if f[3] != (len(results) > 0):
-                return 'value: result flag of event %d is %r with %d results (event %d)' % (L, f[3], len(results), L)
-            if f[2] != (raises > 0):
-                return 'errors: flag of event %d is %r but %d handlers raised (event %d)' % (L, f[2], raises, L)
+                probs.append('value: event %d holds %r, expected %r (event %d)' % (L, f[1], exp, L))
+            if not has_nest and f[3] != (len(results) > 0):
+                probs.append('value: result flag of event %d is %r with %d results (event %d)' % (L, f[3], len(results), L))
+            if not open_flag and f[2] != (raises > 0):
+                probs.append('errors: flag of event %d is %r but %d handlers raised (event %d)' % (L, f[2], raises, L))
             if cnt([3, 2, L]) != raises or cnt([2, 2, L, 0]) != raises or cnt([2, 2, L, 1]) != 0:
-                return 'exception: %d exception events fired / %d dispatched for %d raises (event %d)' % (
-                    cnt([3, 2, L]), cnt([2, 2, L, 0]), raises, L)
+                probs.append('exception: %d exception events fired / %d dispatched for %d raises (event %d)' % (
+                    cnt([3, 2, L]), cnt([2, 2, L, 0]), raises, L))
             nf = raises if e['f'] else 0
             if cnt([3, 1, L]) != nf or cnt([2, 1, L, 0]) != nf or cnt([2, 1, L, 1]) != (nf if e['b'] else 0):
-                return 'failure: %d e%d_failure events fired, expected %d (event %d)' % (cnt([3, 1, L]), L, nf, L)
+                probs.append('failure: %d e%d_failure events fired, expected %d (event %d)' % (cnt([3, 1, L]), L, nf, L))
             ns = 1 if (e['s'] and raises == 0) else 0
+            if ns and open_flag and cnt([3, 0, L]) == 0 and any(h['t'] == 'g' for h in e['h']):
+                ns = 0      # a nested failure reached the event before its generators ended: not decided by the statement
             if cnt([3, 0, L]) != ns:
-                return 'success: e%d_success fired %d times, expected %d (%d handlers raised) (event %d)' % (
-                    L, cnt([3, 0, L]), ns, raises, L)
-            if ns:
+                probs.append('success: e%d_success fired %d times, expected %d (%d handlers raised) (event %d)' % (
+                    L, cnt([3, 0, L]), ns, raises, L))
+            elif ns:
                 sp = pos([3, 0, L])[0]
                 for p, x in enumerate(log):
                     if p > sp and x[0] in (0, 1) and x[1] == L:
-                        return 'success: e%d_success fired before handler entry %r (event %d)' % (L, x, L)
+                        probs.append('success: e%d_success fired before handler entry %r (event %d)' % (L, x, L))
+                        break
                 to_app, to_other = {0: (1, e['b']), 1: (1, 0), 2: (0, 1), 3: (1, 1)}[e['sc']]
                 if cnt([2, 0, L, 0]) != to_app or cnt([2, 0, L, 1]) != to_other:
-                    return 'success: e%d_success not delivered exactly once on its success_channels (event %d)' % (L, L)
+                    probs.append('success: e%d_success not delivered exactly once on its success_channels (event %d)' % (L, L))
             elif cnt([2, 0, L, 0]) or cnt([2, 0, L, 1]):
-                return 'success: e%d_success dispatched but not expected (event %d)' % (L, L)
-        if value_problems:
-            return sorted(value_problems, key=lambda t: t[0])[0][1]
-        return None
+                probs.append('success: e%d_success dispatched but not expected (event %d)' % (L, L))
+        order = {'success': 0, 'errors': 1, 'failure': 2, 'exception': 3, 'value': 4}
+        probs.sort(key=lambda w: order.get(w.split(':')[0], 9))
+        for w in probs:
+            if self.finding_class(case, obs, w) is None:
+                return w
+        return probs[0] if probs else None
 
     def finding_class(self, case, obs, what):
         # C04-list-result-merged: the first result of an event is itself a list and a later result exists:
         # Value.setValue appends the later results to that list
-        if what.startswith('value:') and isinstance(obs, dict) and 'log' in obs:
-            L = int(what.rsplit('(event ', 1)[1].rstrip(')'))
-            specs = {e['l']: e for e in walk_events(case['roots'])}
-            results, _ = event_results(specs[L], obs['log'])
-            fin = {f[0]: f for f in obs['final']}
+        if not (isinstance(obs, dict) and 'log' in obs and '(event ' in what):
+            return None
+        L = int(what.rsplit('(event ', 1)[1].rstrip(')'))
+        specs = {e['l']: e for e in walk_events(case['roots'])}
+        if L not in specs:
+            return None
+        e = specs[L]
+        fin = {f[0]: f for f in obs['final']}
+        results, raises = event_results(e, obs['log'], fin)
+        has_nest = bool(nested_labels(e))
+        if what.startswith('value: event') and not has_nest:
             if len(results) >= 2 and results[0][0] == 3 and fin[L][1] == [3, results[0][1] + results[1:]]:
                 return 'C04-list-result-merged'
+        # the three symptoms of Value.setValue copying result/errors from a (still unresolved) nested Value
+        if what.startswith('value: event') and has_nest and len(results) >= 2:
+            return 'C04-nested-value-loses-results'
+        if what.startswith('errors:') and has_nest and raises > 0 and fin[L][2] is False:
+            return 'C04-nested-value-clears-errors'
+        if (what.startswith('success:') and 'handlers raised' in what and has_nest and raises > 0
+                and any(h['t'] == 'g' for h in e['h'])
+                and sum(1 for x in obs['log'] if x == [3, 0, L]) == 1):
+            return 'C04-nested-value-success-after-failure'
         return None
 
     def nontrivial(self, case, obs):
         for e in walk_events(case['roots']):
-            if len(e['h']) >= 2 and any(h['t'] == 'g' or h['r'] == 'x' for h in e['h']):
+            if len(e['h']) >= 2 and any(h['t'] == 'g' or h['r'] == 'x' or is_nest(h['r']) for h in e['h']):
                 return True
         return False
 
